@@ -22,10 +22,7 @@ func InitGenesis(ctx sdk.Context, k keeper.Keeper, state *types.GenesisState) {
 	}
 
 	for _, item := range state.CollectorLookup {
-		err := k.SetCollectorLookupTable(ctx, item)
-		if err != nil {
-			return
-		}
+		k.SetGenCollectorLookupTable(ctx, item)
 	}
 
 	for _, item := range state.CollectorAuctionLookupTable {
